@@ -1,7 +1,7 @@
 (* C14 -- open_files(), num_fds(), io_counters() reflect the descriptor table.
    Statements only; proofs live in C14/Proofs*.v.  Model: C14/Model.v
    (transcription of psutil/_pslinux.py), specification: C14/Spec.v. *)
-From PV Require Import C14.Spec C14.Mounts C14.PyMini Gen.C14_Tables C14.Proofs C14.ProofsIO C14.ProofsMounts C14.ProofsGen.
+From PV Require Import C14.Spec C14.Mounts C14.PyMini C14.PyLoop Gen.C14_Tables C14.Proofs C14.ProofsIO C14.ProofsMounts C14.ProofsGen.
 
 (* the mode string is the one the flags imply, for every flag word; access mode 3
    (which has no documented mode string) is a KeyError in the code as written *)
@@ -99,3 +99,22 @@ Theorem C14_kernel_keeps_mode : forall req cloexec, 0 <= req ->
   spec_mode (k_open_flags req cloexec) = spec_mode req.
 Proof. exact kernel_keeps_mode. Qed.
 Print Assumptions C14_kernel_keeps_mode.
+
+(* tie to the source by translation, io_counters: the body of `for line in f:` as translated from the CURRENT source
+   (gen_io_loop, a program of coq/C14/PyLoop.v) updates the dictionary exactly like the model's io_line, for every line
+   and dictionary; hence io_counters assembled from the translated pieces is the model's function on every content ... *)
+Theorem C14_translated_io_line_is_model : forall d line,
+  io_line_gen gen_io_loop d line = io_line false d line.
+Proof. exact gen_io_loop_correct. Qed.
+Print Assumptions C14_translated_io_line_is_model.
+
+Theorem C14_translated_io_counters_is_model : forall content,
+  io_counters_gen content = io_counters false content.
+Proof. exact io_counters_gen_correct. Qed.
+Print Assumptions C14_translated_io_counters_is_model.
+
+(* ... and therefore meets the specification on every kernel-formatted file *)
+Theorem C14_translated_io_roundtrip : forall items,
+  forallb ioitem_ok items = true -> io_counters_gen (k_io items) = spec_io items.
+Proof. exact io_counters_gen_roundtrip. Qed.
+Print Assumptions C14_translated_io_roundtrip.
